@@ -119,3 +119,9 @@ func TestVerifC19_mhcv_invalid(t *testing.T) {
 	}
 	c19Sys().UnitInvalid(r, t, plan)
 }
+
+func TestVerifC19_mhcv_codec(t *testing.T) {
+	r := verifmc.Start(t, "C19", "mhcv_codec")
+	defer r.Finish()
+	c19Sys().UnitCodec(r, t, []prio.Inst{c19M(2, 1, 1), c19M(3, 2, 2), c19M(4, 2, 3)}, []int{2, 3})
+}
